@@ -15,10 +15,9 @@ def miri_stream(mode, prop_tag):
         if not (ctx["tier"] == "thorough" or ctx.get("search")):
             res["stats"]["skipped"] = "quick tier"
             return res
-        seeds = 6 if ctx["tier"] == "thorough" else 4
+        seeds = 16 if ctx["tier"] == "thorough" else 8
         env = dict(os.environ, CARGO_NET_OFFLINE="true",
-                   MIRIFLAGS=f"-Zmiri-many-seeds=0..{seeds} -Zmiri-disable-isolation -Zmiri-ignore-leaks",
-                   CARGO_TARGET_DIR=os.path.join(HARNESS, "target"))
+                   MIRIFLAGS=f"-Zmiri-many-seeds=0..{seeds} -Zmiri-disable-isolation -Zmiri-ignore-leaks")
         cmd = ["cargo", "+nightly", "miri", "run", "--offline", "--bin", "stress", "--", mode, "1", "3", str(ctx["seed"])]
         import subprocess, time
         t0 = time.time()
